@@ -189,10 +189,11 @@ def cases(tier, rng):
         for oh, orr in kinds:
             for h, r in kinds:
                 yield "overlapping-requests", mk(h, r, None, size, 3) + [[], [oh, [orr] if orr else []]]
+                yield "overlapping-requests", mk(h, r, None, size, 3) + [[], [oh, [orr] if orr else [], 1]]     # this request starts first
         for _ in range(30 if tier == "quick" else 300):
             h, r = rng.choice(kinds)
             oh, orr = rng.choice(kinds)
-            yield "overlapping-requests", mk(h, r, None, size, rng.choice([1, 3, 64])) + [[], [oh, [orr] if orr else []]]
+            yield "overlapping-requests", mk(h, r, None, size, rng.choice([1, 3, 64])) + [[], [oh, [orr] if orr else [], rng.randrange(2)]]
 
 
 def search_cases(tier, rng, mism):
@@ -307,7 +308,7 @@ def run_asgi(case, head, zc):
         ohead, orng = case[13][0], case[13][1]
         other = util.http_scope("HEAD" if ohead else "GET", headers=[(b"range", orng[0].encode("latin-1"))] if orng else [],
                                 extensions={"http.response.zerocopysend": {}} if not zc else None)
-    sent, exc = util.call_asgi(resp, scope, alongside=other)
+    sent, exc = util.call_asgi(resp, scope, alongside=other, other_first=not (other is not None and len(case[13]) > 2 and case[13][2]))
     if exc is not None:
         return ["exc", type(exc).__name__]
     if not sent or sent[0]["type"] != "http.response.start":
